@@ -11,7 +11,7 @@
 From Coq Require Import List NArith Bool String Lia.
 From ApiFu Require Import Base.Sexp Gen.GoTypes Gen.ClientGenModel Gen.DecodeModel Gen.ClientGenSpec Gen.ClientGenLemmas
   Gen.DecodeLemmas Gen.ClientGenProofs Gen.ClientGenGood Gen.ClientGenFinal Gen.ClientGenDecode Gen.ClientGenMain Gen.ClientGenDeclSafe Gen.ClientGenFresh Gen.ClientGenAgree
-  Gen.ClientGenDecodeS Gen.ClientGenMainS Gen.LoadSchemaModel Gen.LoadSchemaProofs Gen.ClientGenClauses.
+  Gen.ClientGenDecodeS Gen.ClientGenMainS Gen.ClientGenDeclSafeS Gen.LoadSchemaModel Gen.LoadSchemaProofs Gen.ClientGenClauses.
 Import ListNotations.
 
 (** ** the Go name of an enum type is not a keyword *)
@@ -31,10 +31,10 @@ Proof.
   rewrite IH. rewrite map_app. simpl. rewrite <- app_assoc. reflexivity.
 Qed.
 
-Lemma enum_go_name_not_keyword S d n n' vs :
-  lookup_type S n = Some (DEnum n' vs) -> go_keyword (enum_go_name S d n) = false.
+Lemma enum_go_name_not_keyword_In S d n vs :
+  In (DEnum n vs) (s_types S) -> go_keyword (enum_go_name S d n) = false.
 Proof.
-  intros El. apply find_some_name in El as [En Hin]. simpl in En. subst n'.
+  intros Hin.
   assert (Hk : In n (map fst (fst (enum_name_map S d)))).
   { unfold enum_name_map. rewrite assign_gen_keys. simpl. apply in_map_iff. exists (n, vs). split; [reflexivity|].
     unfold schema_enums. apply in_flat_map. exists (DEnum n vs). split; [exact Hin | left; reflexivity]. }
@@ -42,6 +42,12 @@ Proof.
   destruct (enum_type_names_distinct S d) as [_ Hfree]. specialize (Hfree x Hs).
   unfold go_keyword. apply mem_false. intro Hi. apply Hfree. rewrite reserved_is. unfold go_reserved.
   apply in_app_iff. left. apply in_app_iff. left. apply in_app_iff. left. exact Hi.
+Qed.
+
+Lemma enum_go_name_not_keyword S d n n' vs :
+  lookup_type S n = Some (DEnum n' vs) -> go_keyword (enum_go_name S d n) = false.
+Proof.
+  intros El. apply find_some_name in El as [En Hin]. simpl in En. subst n'. apply (enum_go_name_not_keyword_In S d n vs Hin).
 Qed.
 
 (** ** <Op>Data and <F>Fragment names are pairwise distinct in a valid document *)
@@ -279,3 +285,58 @@ Proof.
   intros D S d H1 HL p o opname w Hg. rewrite (generate_real_loadable D S _ d HL) in Hg.
   apply (gen_s_decodes S d H1 p o opname w Hg).
 Qed.
+
+(** ** identifiers: the fields of every declaration, the emitted enum blocks, the sel<T><n> helpers
+    (ClientGenDeclSafeS.v).  [lex_fields]: every response key, composite type name, fragment name
+    and type condition gives a usable Go field name (true of every GraphQL name but "_", whose
+    field would be the blank identifier - known finding blank-field-name) *)
+Definition lex_fields (S : schema) (d : document) : bool :=
+  forallb (fun k => go_ident_ok (field_name k)) (KeysD d ++ DashD S d).
+
+Theorem gen_s_idents S d p :
+  schema_ok S = true -> lex_fields S d = true -> generate_s S (doc_valid S d) d = GOk p ->
+  (forall dfn, In dfn (p_defs p) -> idents_ok (td_type dfn) = true) /\
+  NoDup (map fst (p_enums p)) /\
+  (forall n' cs, In (n', cs) (p_enums p) ->
+     exists n vs, In (DEnum n vs) (s_types S) /\ n' = enum_go_name S d n /\ cs = map (fun v => (const_go_name S d n v, v)) vs) /\
+  NoDup (map snd (DX (p_defs p))) /\
+  (forall ix, In ix (DX (p_defs p)) -> In (fst ix) (composites S)) /\
+  (forallb (fun t => negb (ends_with_digit t)) (composites S) = true ->
+   NoDup (flat_map (fun x => sel_names (td_type x)) (p_defs p))).
+Proof.
+  intros HS Hlex Hgen. unfold generate_s, generate_raw_s in Hgen.
+  destruct (doc_valid S d); [|discriminate]. cbn [negb] in Hgen.
+  destruct (process_defs_s S (map (fun f => (fr_name f, fr_cond f)) (d_frags d)) (enum_go_name S d) (const_go_name S d)
+                           (Datatypes.S (doc_size d)) (defs_of S d) {| g_enums := []; g_count := 0; g_json := false |} [] false)
+    as [[[st out] errored]| | |] eqn:Ep; try discriminate.
+  destruct errored; [discriminate|].
+  unfold lex_fields in Hlex. rewrite forallb_forall in Hlex.
+  assert (HP0 : PIs S (enum_go_name S d) (const_go_name S d) {| g_enums := []; g_count := 0; g_json := false |} []).
+  { unfold PIs, StOKs. cbn. split; [split; [intros n cs [] | constructor]|]. split; [intros q []|]. split; [constructor | intros x []]. }
+  pose proof (process_PIs S _ (enum_go_name S d) (const_go_name S d) (KeysD d) (DashD S d)
+                (fun k Hk => Hlex k (in_or_app _ _ _ (or_introl Hk))) (fun k Hk => Hlex k (in_or_app _ _ _ (or_intror Hk)))
+                (fun x Hx => in_or_app _ _ _ (or_introl Hx))
+                (enum_go_name_not_keyword_In S d) (no_scalars S HS) _ _ _ _ _ _ _ _ Ep HP0 (defs_SelsIn S d))
+    as ([E1 E2] & P2 & P3 & P4).
+  set (q := {| p_enums := g_enums st; p_defs := out; p_json := g_json st |}) in *.
+  destruct (program_syntax_ok q); [|discriminate]. inversion Hgen; subst p. cbn [p_defs p_enums q].
+  split; [intros dfn Hd; apply (P4 dfn Hd)|]. split; [exact E2|]. split; [exact E1|]. split; [exact P3|].
+  split; [intros ix Hix; apply (P2 ix Hix)|].
+  intros Hdig. rewrite forallb_forall in Hdig.
+  assert (HSN : flat_map (fun x => sel_names (td_type x)) out = map ixname (DX out)).
+  { unfold DX. rewrite map_flat_map. apply flat_map_ext_in. intros x _. apply sel_names_ix. }
+  rewrite HSN. apply NoDup_ixnames; [exact P3|]. intros ix Hix. apply negb_true_iff. apply Hdig. apply (P2 ix Hix).
+Qed.
+
+Theorem real_s_idents : forall D S d p,
+  schema_ok S = true -> schema_loadable S = true -> lex_fields S d = true ->
+  generate_real D S (doc_valid S d) d = GOk p ->
+  (forall dfn, In dfn (p_defs p) -> idents_ok (td_type dfn) = true) /\
+  NoDup (map fst (p_enums p)) /\
+  (forall n' cs, In (n', cs) (p_enums p) ->
+     exists n vs, In (DEnum n vs) (s_types S) /\ n' = enum_go_name S d n /\ cs = map (fun v => (const_go_name S d n v, v)) vs) /\
+  NoDup (map snd (DX (p_defs p))) /\
+  (forall ix, In ix (DX (p_defs p)) -> In (fst ix) (composites S)) /\
+  (forallb (fun t => negb (ends_with_digit t)) (composites S) = true ->
+   NoDup (flat_map (fun x => sel_names (td_type x)) (p_defs p))).
+Proof. intros D S d p HS HL Hlex Hg. rewrite (generate_real_loadable D S _ d HL) in Hg. apply (gen_s_idents S d p HS Hlex Hg). Qed.
